@@ -117,6 +117,10 @@ FamOps ==
   {Case("ops", [ops |-> o, frags |-> <<>>], n, NoVars, {}) : o \in {OpsAB, OpsAM}, n \in {"", "A", "B", "M", "Nope"}}
   \cup {Case("ops", [ops |-> <<Op("A", "query", <<>>, <<F("", "title")>>)>>, frags |-> <<>>], n, NoVars, {}) : n \in {"", "A", "Nope"}}
   \cup {Case("ops", [ops |-> <<Op("", "query", <<>>, <<F("", "title")>>)>>, frags |-> <<>>], n, NoVars, {}) : n \in {"", "Nope"}}
+  \* an operation of a kind the schema has no root type for (alone, beside a query)
+  \cup {Case("ops", [ops |-> o, frags |-> <<>>], n, NoVars, {}) :
+          o \in { <<Op("S", "subscription", <<>>, <<F("", "tick")>>)>>, <<Op("A", "query", <<>>, <<F("", "title")>>), Op("S", "subscription", <<>>, <<F("", "tick")>>)>> },
+          n \in {"", "S", "A"}}
   \* an anonymous operation beside a named one: without a name neither is "the only one"
   \cup {Case("ops", [ops |-> <<Op("", "query", <<>>, <<F("", "title")>>), Op("B", "query", <<>>, <<F("", "nul")>>)>>, frags |-> <<>>], n, NoVars, {}) : n \in {"", "B", "Nope"}}
   \cup {Case("ops", [ops |-> <<Op("M", "mutation", <<>>, <<FA("", "set", <<Arg("s", StrV("v"))>>)>>), Op("", "query", <<>>, <<F("", "title")>>)>>, frags |-> <<>>], n, NoVars, {}) : n \in {"", "M"}}
@@ -176,6 +180,7 @@ BogusArg == Arg("bogus", IntV(1))
 FamDefects ==
   \* undefined field under: root, object, list element, interface container, nested, mutation root, inside fragments
   { Plain("defect", s) : s \in {
+      <<F("", "zz9"), F("", "title")>>, <<FS("", "a", <<F("", "name"), F("", "zz8")>>)>>,      \* (fields only a refused load had)
       <<F("", "nope"), F("", "title")>>, <<F("", "title"), F("", "nope")>>,
       <<FS("", "a", <<F("", "nope"), F("", "name")>>), F("", "title")>>,
       <<FS("", "items", <<F("", "name"), F("", "nope")>>)>>,
